@@ -59,6 +59,9 @@ class Rig(object):
         class Bottom(YowLayer):
             def send(self, data):
                 rig.downs.append(data)
+                hook, rig.on_send = rig.on_send, None
+                if hook is not None:
+                    hook(self, data)          # e.g. the peer's answer read while the request is still being sent
 
             def onEvent(self, ev):
                 rig.events.append(ev.getName())
@@ -80,6 +83,7 @@ class Rig(object):
                 if getattr(data, "tag", None) != "message" or tap_forwards_messages:
                     self.toLower(data)
 
+        self.on_send = None
         self.flags = dict(zip(FLAGS, flags))
         self.axolotl = axolotl
         proto = YowParallelLayer(YowStackBuilder.getProtocolLayers(**self.flags))
@@ -127,6 +131,26 @@ class Rig(object):
             exc = e
         out = self.mids if self.axolotl else self.downs
         return list(self.ups), list(out), list(self.downs), exc
+
+    def send_answered_inside(self, entity, reply):
+        """like send(), but the bottom hands `reply` upward from inside its own send() of the request (a reader
+        thread, or a transport that answers synchronously, delivers the answer before the sender has returned);
+        returns (entities that reached the top, stanzas leaving the protocol group, exception, delivered?)"""
+        self.clear()
+        exc, box = None, {"delivered": False}
+
+        def hook(bottom, data):
+            box["delivered"] = True
+            with contextlib.redirect_stdout(io.StringIO()):
+                bottom.toUpper(reply)
+        self.on_send = hook
+        try:
+            self.top.toLower(entity)
+        except Exception as e:  # noqa
+            exc = e
+        self.on_send = None
+        out = self.mids if self.axolotl else self.downs
+        return list(self.ups), list(out), exc, box["delivered"]
 
     def enqueue_sent(self, node):
         """state set-up for retry receipts: the send layer's own bookkeeping method"""
